@@ -110,6 +110,11 @@ struct Task {
   int timed_wait;
   uint32_t blocked_pc;
   uint32_t last_pc;
+  // fences: a release fence makes later relaxed stores of this task release its clock as of the
+  // fence; an acquire fence makes earlier relaxed loads acquire what they read from
+  int has_rel_fence;
+  uint32_t rel_fence_vc[kClockN];
+  uint32_t acq_pending_vc[kClockN];
 };
 
 enum SKind : int { SK_ATOMIC = 0, SK_MUTEX = 1, SK_GUARD = 2, SK_ONCE = 3 };
@@ -1177,10 +1182,17 @@ static inline Task* atomic_pre(const volatile void* a, unsigned size, uint32_t p
 static inline void atomic_post(Task* t, const volatile void* a, int mo, bool is_load, bool is_store) {
   if (!t) return;
   SyncObj* s = sync_lookup((uintptr_t)a, SK_ATOMIC, true);
-  if (is_load && is_acq(mo)) acquire(t, s);
-  if (is_store && is_rel(mo)) {
-    if (is_load) release_join(t, s);
-    else release_store(t, s);
+  if (is_load) {
+    if (is_acq(mo)) acquire(t, s);
+    else vc_join(t->acq_pending_vc, s->vc);  // becomes an acquire at the next acquire fence
+  }
+  if (is_store) {
+    if (is_rel(mo)) {
+      if (is_load) release_join(t, s);
+      else release_store(t, s);
+    } else if (t->has_rel_fence) {
+      vc_join(s->vc, t->rel_fence_vc);  // relaxed store after a release fence
+    }
   }
   t->in_rt = 0;
 }
@@ -1247,12 +1259,19 @@ ATOMIC_ALL(32, int)
 ATOMIC_ALL(64, long)
 
 void __tsan_atomic_thread_fence(int mo) {
-  // A fence by itself creates no edge in this model (no fence-based publication is recognised:
-  // code that relies on one is reported as a race, which is the conservative direction).
+  // Fence-based publication (C++ [atomics.fences]): a release fence followed by a relaxed store
+  // synchronises with a relaxed load followed by an acquire fence.
   Task* t = atomic_pre(nullptr, 0, PC());
-  (void)mo;
   __atomic_thread_fence(__ATOMIC_SEQ_CST);
-  if (t) t->in_rt = 0;
+  if (t) {
+    if (is_acq(mo)) vc_join(t->vc, t->acq_pending_vc);
+    if (is_rel(mo)) {
+      __real_memcpy(t->rel_fence_vc, t->vc, sizeof t->rel_fence_vc);
+      t->has_rel_fence = 1;
+      t->vc[t->id]++;
+    }
+    t->in_rt = 0;
+  }
 }
 void __tsan_atomic_signal_fence(int) {}
 
